@@ -7,4 +7,7 @@ INVARIANT C13_TerminatesOrRaises
 INVARIANT C13_ReturnConverged
 INVARIANT C13_ReturnConvergedEarlierLevels
 INVARIANT C13_ReturnFresh
-INVARIANT DIV_Conformance
+INVARIANT DIV_TapTracking
+INVARIANT DIV_ConvDecision
+INVARIANT DIV_StepDecision
+INVARIANT DIV_UnexpectedRaise
